@@ -8,11 +8,15 @@ import (
 	"os"
 	"sort"
 	"strings"
+	"sync"
 	"testing"
 	"time"
 
+	"github.com/hattya/go.sh/ast"
 	"github.com/hattya/go.sh/interp"
 	"github.com/hattya/go.sh/parser"
+	"github.com/hattya/go.sh/pattern"
+	"github.com/hattya/go.sh/printer"
 	"pgregory.net/rapid"
 
 	"verif/gen"
@@ -233,6 +237,7 @@ func init() {
 		}
 		return nil
 	})
+	reg("C06", "concurrent", checkC06Concurrent)
 	reg("C06", "race", func(c c06Case) error {
 		return fmt.Errorf("data race reported by the race detector while this input ran (%s %q); reproduce with the -race binary", c.Kind, c.Src)
 	})
@@ -427,6 +432,86 @@ func TestC06(t *testing.T) {
 	_ = ref.Sentence
 }
 
+// c06Call is one call of an entry point on arguments of its own.
+type c06Call struct {
+	Kind string `json:"kind"` // parse | eval | match | expand | print
+	Src  string `json:"src"`
+}
+
+type c06Concurrent struct {
+	Calls []c06Call `json:"calls"`
+}
+
+func (c c06Call) run() string {
+	switch c.Kind {
+	case "eval":
+		env := interp.NewExecEnv("sh")
+		env.Set("y", "3")
+		n, err := env.Eval(c.Src)
+		x, _ := env.Get("x")
+		return fmt.Sprint(n, err, x.Value)
+	case "match":
+		m, err := pattern.Match([]string{c.Src}, pattern.Prefix|pattern.Largest, "abcab")
+		m2, err2 := pattern.Match([]string{c.Src}, pattern.Suffix|pattern.Smallest, "xaby")
+		return fmt.Sprint(m, err, m2, err2)
+	case "expand":
+		env := interp.NewExecEnv("sh")
+		env.Opts |= interp.NoGlob
+		env.Set("x", "cabab")
+		cmd, _, err := parser.ParseCommand("c06", "_ "+c.Src)
+		if err != nil {
+			return "parse: " + err.Error()
+		}
+		f, err := env.Expand(cmd.(*ast.Cmd).Expr.(*ast.SimpleCmd).Args[1], 0)
+		return fmt.Sprint(f, err)
+	case "print":
+		cmds, _, err := parser.ParseCommands(nil, "c06", c.Src)
+		if err != nil {
+			return "parse: " + err.Error()
+		}
+		var b strings.Builder
+		for _, cmd := range cmds {
+			err = printer.Fprint(&b, cmd)
+		}
+		return fmt.Sprint(b.String(), err)
+	}
+	cmds, comments, err := parser.ParseCommands(nil, "c06", c.Src)
+	return oracle.Snapshot(cmds) + oracle.Snapshot(comments) + fmt.Sprint(err)
+}
+
+// checkC06Concurrent runs the calls one after the other, then all at once
+// (three times), and compares.
+func checkC06Concurrent(c c06Concurrent) error {
+	want := make([]string, len(c.Calls))
+	for i, call := range c.Calls {
+		want[i] = call.run()
+	}
+	for round := 0; round < 3; round++ {
+		got := make([]string, len(c.Calls))
+		var wg sync.WaitGroup
+		for i, call := range c.Calls {
+			wg.Add(1)
+			go func(i int, call c06Call) {
+				defer wg.Done()
+				got[i] = call.run()
+			}(i, call)
+		}
+		done := make(chan struct{})
+		go func() { wg.Wait(); close(done) }()
+		select {
+		case <-done:
+		case <-time.After(60 * time.Second):
+			return fmt.Errorf("the calls %+v, started at the same time, did not all return within 60s", c.Calls)
+		}
+		for i := range got {
+			if got[i] != want[i] {
+				return fmt.Errorf("%s(%q) run at the same time as %+v gives\n%s\nalone it gives\n%s", c.Calls[i].Kind, c.Calls[i].Src, c.Calls, got[i], want[i])
+			}
+		}
+	}
+	return nil
+}
+
 // c06Within runs fn and reports whether it returned in time.
 func c06Within(d time.Duration, fn func()) bool {
 	done := make(chan struct{})
@@ -453,6 +538,37 @@ func TestC06Race(t *testing.T) {
 	sched.SetPerturb(uint64(seed())*7919 + 1)
 	defer sched.SetPerturb(0)
 	prop := func(rt *rapid.T) {
+		if rapid.IntRange(0, 9).Draw(rt, "concurrent") == 0 {
+			// independent calls at the same time: each works on its own
+			// arguments, so each must give what it gives alone
+			var calls []c06Call
+			for i := rapid.IntRange(2, 4).Draw(rt, "ncalls"); i > 0; i-- {
+				c := c06Call{Kind: rapid.SampledFrom([]string{"parse", "eval", "match", "expand", "print"}).Draw(rt, "kind")}
+				switch c.Kind {
+				case "eval":
+					c.Src = rapid.SampledFrom(c06EvalExprs).Draw(rt, "expr")
+				case "match":
+					c.Src = rapid.SampledFrom([]string{"a*", "*b", "[a-c]?", "a", "?", "x*y", "*"}).Draw(rt, "pat")
+				case "expand":
+					c.Src = rapid.SampledFrom([]string{"${x%b*}", "${x#*a}", "$((x + 1))", "\"$x\" ${y:-z}", "a*"}).Draw(rt, "word")
+				default:
+					o := genOpts()
+					o.MaxDepth = rapid.IntRange(1, 2).Draw(rt, "maxdepth")
+					o.Budget = rapid.IntRange(1, 4).Draw(rt, "budget")
+					c.Src = gen.Render(gen.Complete(gen.RapidChooser{T: rt}, o).Stream, gen.Canonical{}).Src
+				}
+				calls = append(calls, c)
+			}
+			cc := c06Concurrent{Calls: calls}
+			jr.begin("C06", "concurrent", cc)
+			if err := checkC06Concurrent(cc); err != nil {
+				fail(rt, "C06", "concurrent", cc, "%v", err)
+			}
+			jr.end()
+			st.Eval(true, "concurrent", fmt.Sprint(calls))
+			st.Class("independent_calls_at_the_same_time")
+			return
+		}
 		if rapid.IntRange(0, 3).Draw(rt, "class") != 0 {
 			o := genOpts()
 			o.MaxDepth = rapid.IntRange(1, 3).Draw(rt, "maxdepth")
